@@ -33,7 +33,7 @@ impl Bytes {
   #[verifier::external_body]
   pub fn from_vec(data: Vec<u8>) -> (r: Bytes) ensures r@ == data@ { unimplemented!() }
   #[verifier::external_body]
-  pub fn as_slice(&self) -> (r: &[u8]) ensures r@ == self@ { unimplemented!() }
+  pub fn as_slice(&self) -> (r: &[u8]) ensures r@ == self@, r@.len() <= isize::MAX { unimplemented!() }
   #[verifier::external_body]
   pub fn split_to(&mut self, at: usize) -> (r: Bytes)
     requires at <= old(self)@.len()
@@ -132,7 +132,7 @@ impl BytesMut {
   #[verifier::external_body]
   pub fn put(&mut self, src: BytesMut) ensures final(self)@ == old(self)@ + src@ { unimplemented!() }
   #[verifier::external_body]
-  pub fn as_slice(&self) -> (r: &[u8]) ensures r@ == self@ { unimplemented!() }
+  pub fn as_slice(&self) -> (r: &[u8]) ensures r@ == self@, r@.len() <= isize::MAX { unimplemented!() }
   // R6: `&buf[..n]`
   #[verifier::external_body]
   pub fn verif_prefix(&self, n: usize) -> (r: &[u8])
